@@ -53,7 +53,42 @@ def jobs_for(tier, seed):
             if not tied:
                 jobs.append({"kind": "pairwise", "key": "p%d" % key, "variant": v, "cands": cs, "ballots": c["ballots"], "names": c["names"],
                              "cand_order": c["cand_order"], "seed": 0})
+    # many candidates, short ballots (bullet votes and two-name ballots among 8 candidates): the completion of a short ballot over the 7 unranked
+    # candidates (7! orders) must stay symmetric in them whatever the listing order or the names -- beyond PairwiseTrace's range (TLC would
+    # enumerate the same completions), so part (a) plus the exact closed form (an unranked pair contributes nothing to a margin) decide
+    many = ["A", "B", "C", "D", "E", "F", "G", "H"]
+    for n in range(4 if q else 24):
+        bag = []
+        for _ in range(rng.randint(1, 3)):
+            r = rng.sample(many, rng.choice([1, 1, 2]))
+            bag.append({"r": [[c] for c in r], "w": [rng.randint(1, 5), 1]})
+        key += 1
+        for v, c in enumerate(D.concretisations(rng, many, bag, nvar)):
+            jobs.append({"kind": "pairwise_many", "key": "m%d" % key, "variant": v, "cands": many, "ballots": c["ballots"], "names": c["names"],
+                         "cand_order": c["cand_order"], "seed": 0, "abstract": bag})
     return jobs
+
+
+def many_margins(cands, bag):
+    """exact margins of a bag of untied short ballots: a listed candidate beats every later-listed and every unlisted one; two unlisted candidates
+    are completed symmetrically, so they contribute nothing"""
+    from fractions import Fraction as F
+    out = {}
+    for a in cands:
+        for b in cands:
+            if a < b:
+                m = F(0)
+                for bl in bag:
+                    order = [t[0] for t in bl["r"]]
+                    w = F(bl["w"][0], bl["w"][1])
+                    ia = order.index(a) if a in order else None
+                    ib = order.index(b) if b in order else None
+                    if ia is not None and (ib is None or ia < ib):
+                        m += w
+                    elif ib is not None and (ia is None or ib < ia):
+                        m -= w
+                out[(a, b)] = m
+    return out
 
 
 def run_subprocesses(jobs, hashseeds, workdir, shards=4):
@@ -132,6 +167,25 @@ def run(tier, seed, replay=None):
             res.violation("scoring_float:NotTheFloatOfTheExactTally", "a to_float=True tally is not float(exact tally): accumulated in floating point (order dependent)",
                           {"jobs": jobmap[r["key"].split(":")[0]], "result": r})
             break
+    # many-candidate short ballots: the sign and size of every margin against the closed form
+    from fractions import Fraction as F
+    seen_many = set()
+    for r in results:
+        if r["kind"] != "pairwise_many" or r["key"] in seen_many:
+            continue
+        j0 = jobmap[r["key"]][0]
+        exp = many_margins(j0["cands"], j0["abstract"])
+        got = {}
+        for a, b, v in r["trace"].get("dict", []):
+            got[(a, b)] = F(v[0], v[1]) if isinstance(v, (list, tuple)) else F(str(v))
+        bad = r["trace"].get("error") or any(
+            (got.get((a, b), -got[(b, a)] if (b, a) in got else None) is None and m != 0)
+            or (((a, b) in got) and ((got[(a, b)] > 0) != (m > 0) or (got[(a, b)] < 0) != (m < 0))) or (((b, a) in got) and ((got[(b, a)] > 0) != (m < 0) or (got[(b, a)] < 0) != (m > 0)))
+            for (a, b), m in exp.items())
+        if bad:
+            seen_many.add(r["key"])
+            res.violation("pairwise_many:MarginSign", "8 candidates, short ballots: a pairwise margin has the wrong sign (two unranked candidates must tie; a listed one "
+                          "beats an unlisted one)", {"jobs": jobmap[r["key"]], "result": r})
     # (b) each projected trace is the behaviour the specification prescribes for the abstract input
     def uniq(kind):
         seen, out = set(), []
